@@ -206,6 +206,27 @@ def c16_dial(rng, count):
     return out
 
 
+def c16_attach_race(rng, count, rounds=40):
+    """a peer attaches (AddClient in a goroutine of its own) at the moment the first envelope addressed to it is on
+    its way through the dispatcher: that envelope may go to the attached connection or to one dialled on demand,
+    every envelope accepted after AddClient has returned goes to the attached connection"""
+    out = []
+    for k in range(count):
+        ids = Ids()
+        steps = [attach('a', 1)]
+        dial = {}
+        for r in range(rounds):
+            x = 'x%d' % r
+            dial[x] = 'ok' if (k + r) % 3 else 'err'
+            steps.append(dict(op='attach_on_route', name=x, conn=10 + r))
+            steps.append(w(ids, 1, 'a', x))
+            steps.append(Q)
+            steps.append(w(ids, 1, 'a', x, rep=2))
+            steps.append(Q)
+        out.append(scen('C16', 'attach racing the first route, %d fresh names #%d' % (rounds, k), steps, icpt=dict(kind='id'), dial=dial))
+    return out
+
+
 def c16_burst(rng, count):
     """above the 16-slot buffer: the destination does not drain (stuck peer / slow dial)"""
     out = []
@@ -392,10 +413,10 @@ def c16_rpc_reattach(rng, count):
 def generate_c16(tier, rng):
     if tier == 'quick':
         s = c16_single(rng, 125) + c16_seq(rng, 145, 3, 2, 10) + c16_pairorder(rng, 30) + c16_dial(rng, 40) + c16_burst(rng, 30)
-        s += c16_reattach(rng, 30) + c16_rpc(rng, 80, 3, 2) + c16_rpc_burst(rng, 12) + c16_rpc_reattach(rng, 8)
+        s += c16_reattach(rng, 30) + c16_rpc(rng, 80, 3, 2) + c16_rpc_burst(rng, 12) + c16_rpc_reattach(rng, 8) + c16_attach_race(rng, 60)
     else:
         s = c16_single(rng, 100000) + c16_seq(rng, 6500, 8, 4, 24) + c16_pairorder(rng, 500) + c16_dial(rng, 800) + c16_burst(rng, 500)
-        s += c16_reattach(rng, 600) + c16_rpc(rng, 1800, 8, 4) + c16_rpc_burst(rng, 100) + c16_rpc_reattach(rng, 100)
+        s += c16_reattach(rng, 600) + c16_rpc(rng, 1800, 8, 4) + c16_rpc_burst(rng, 100) + c16_rpc_reattach(rng, 100) + c16_attach_race(rng, 600)
     return s
 
 
